@@ -22,6 +22,9 @@ Definition view_course (track_id : Z) (ign_c : bool) (ff of : option string) (kc
 Definition in_problem (ign_c : bool) (v : cview) : bool :=
   match cv_status v with NotOffered => false | Cancelled => negb ign_c | TakesPlace => true end.
 
+(* counted in the summary: a cancelled course that is skipped because of --ignore-cancelled (a course not offered in the track is not counted) *)
+Definition ignored_cancelled (ign_c : bool) (v : cview) : bool := match cv_status v with Cancelled => ign_c | _ => false end.
+
 Record rview := { rv_id : Z; rv_name : string; rv_part : bool; rv_pcd : pcd }.
 Definition no_pcd : pcd := {| pc_assigned := None; pc_instr := None; pc_choices := [] |}.
 Definition view_reg (part_id track_id : Z) (cmap : list (Z * option nat)) (kr : string * json) : result rview :=
@@ -92,7 +95,7 @@ Definition spec_read (data : json) (track : option Z) (ign_c ign_a : bool) (ff o
   let* _sn := ok_or (match get "shortname" td with Some v => as_str v | None => None end) 51 in
   ROk (spec_participants ign_a rviews, spec_courses ign_a csorted rviews,
        {| ra_event := eid; ra_track := track_id; ra_part := part_id; ra_qual := if ign_a then Some (spec_quality ign_a td rviews) else None;
-          ra_ign_courses := List.length (filter (fun v => negb (in_problem ign_c v)) cviews);
+          ra_ign_courses := List.length (filter (ignored_cancelled ign_c) cviews);
           ra_ign_regs := List.length (filter (ignored ign_a) rviews); ra_fields := map cv_fields csorted |}).
 
 (* ------------------------------------------------------------------ what the specification says (C12) *)
